@@ -40,25 +40,41 @@ CHECKS = {
    note="Assumes the documented reading layout of test_timer (4 readings per probe, 100 warm-up probes) and mean<2 as 'credits zero bits'. No precedence among simultaneously true errors is demanded."),
  "C14": dict(cat="exploration", ref="3/C14", technique="deterministic simulation with fault injection under a catch_unwind invariant monitor in an overflow-checked build (hostile clocks, source faults, crash/restore, long histories)",
    text="Every call into the crates runs under catch_unwind in a build with overflow-checks and debug-assertions on; a panic that is not the simulator's own clock-abort token is a violation keyed by panic site. Workloads: the generators of all other scenarios plus hostile mixes (all-0/all-FF seeds, u64 edges, every source fault, fill lengths 0..3 blocks+7, 220-op histories, jumps, serde round trips; JitterRng with +-2^31 / 2^32 jumps, backward steps, pauses and wrap-around placed densely, test_timer followed by set_rounds(result)).",
-   note="A JitterRng call that does not return within 60000 further readings is aborted by the simulated clock and discarded (documented behaviour). set_rounds(0) is never issued."),
+   note="A JitterRng call that does not return within 60000 further readings is aborted by the simulated clock and discarded (documented behaviour). set_rounds(0) (the one documented panic) is issued, contained and followed by further use. Damaged snapshots: only \"deserialising does not panic\" is demanded."),
  "C16": dict(cat="exploration", ref="3/C16", technique="deterministic simulation: JitterRng over a simulated clock with per-call timer-read counting, lock-step twin driven with fresh-collection calls only, forked clocks for clones",
    text="Per call, from the simulated clock's read counter: second of two consecutive next_u32 reads 0 times and the pair equals the twin's next_u64; every other output call reads >= rounds times per 64-bit value and equals the twin's value (pending half discarded, never re-served); a clone's first output reads its own forked clock >= rounds times and equals the twin clone's; the original still serves its half afterwards. Independent of what a collection computes (C12).",
    note="fill_bytes(0) / fill_bytes(1..=4) with a half pending: both taking the half (0 reads) and discarding it are accepted (documented composition; no bit is handed out twice). timer_stats between two next_u32 is skipped."),
  "C17": dict(cat="exploration", ref="3/C17", technique="deterministic simulation: two-run non-interference (twin runs differing only in the secret seed / clock script, same public operation history)",
    text="Twin generators with different secrets and the same public history: {:?} and {:#?} must be byte-equal after construction and after every operation, and no numeric token of the text may equal a state word, buffered/next output word or just-returned value >= 100000. Covers XorShiftRng, Hc128Rng/Hc128Core, IsaacRng/IsaacCore, Isaac64Rng/Isaac64Core (also through a harness-built BlockRng), JitterRng.",
    note="Words below 100000 are not searched for (chance hits on index/result_len)."),
- "C18": dict(cat="exploration", ref="3/C18", technique="deterministic simulation replay across build configurations: one seeded corpus of simulated histories (incl. scripted-clock JitterRng), per-run digests compared between 4 (quick) / 8 (thorough) builds",
+ "C18": dict(cat="exploration", ref="3/C18", technique="deterministic simulation replay across build configurations: one seeded corpus of simulated histories (incl. scripted-clock JitterRng), per-run digests compared between 5 (quick) / 12 (thorough) builds",
    text="The simulator's replay-determinism check pointed at the build configuration: the same seed-derived corpus (19 deterministic types, all routes, jumps, clones; JitterRng over hostile scripted clocks; every op under catch_unwind, panics recorded as markers) is executed by the harness built from the current tree in {opt 0,3} x {overflow-checks+debug-assertions on,off} x {serde on,off}; any per-run digest difference is a violation; the replay file names the run and configurations and is cut after the first differing operation.",
    note="x86-64 Linux only. The harness's own generation code uses wrapping arithmetic only; a harness panic is exit 2, not a violation."),
  "C19": dict(cat="exploration", ref="3/C19", technique="deterministic simulation of schedules: seeded scheduler decides which generator instance advances next and on which OS thread (baton passing), fresh-process alone baselines; compile-time Send/Sync table",
    text="Static: Send/Sync of all generator types by const shadowing. Dynamic: 2..6 instances (mixed types, duplicate and near-equal seeds, JitterRng over own scripted clocks) and 1..4 real OS threads; the seeded scheduler moves ownership of one instance to one thread for exactly one operation at a time (replayable), with migrations and disturbances (unrelated generators, zero-seed remap, JitterRng::new() touching JITTER_ROUNDS); instances are constructed lazily inside the schedule. Per-instance outputs must equal those of the instance alone in a fresh process and under sequential / reverse-sequential composition.",
-   note="Operation-granularity interleavings; sub-operation overlap is not explored by the registered commands (see DESIGN.md). JitterRng::new() reads the real clock and is only a disturbance whose results are never compared."),
+   note="Operation-granularity interleavings; sub-operation overlap between threads is explored by the Miri part of the same commands; same-thread re-entrancy through the timer callback by the nested variant. JitterRng::new() reads the real clock and is only a disturbance whose results are never compared."),
 }
+
+# what was added after the first version of each check (kept separate so the original texts stay readable)
+SUFFIX = {
+ "C05": " Also repeated in a build with -C target-cpu=native; one run in four uses trait-qualified (generic) call sites.",
+ "C10": " == is probed per type and also evaluated on copies at different addresses/alignments.",
+ "C11": " Seven ways of writing/reading the image: slice, framed inside a larger document, short-read readers, serde_json::Value.",
+ "C12": " Also: long-haul histories (2^16 collections), contained set_rounds(0), nested use from inside another generator's timer callback, process history (real-clock JitterRng::new() first), wall-clock seam (real clock flying while the code runs).",
+ "C13": " Also steps back between probes and near-constant timers with tolerated steps.",
+ "C14": " Also damaged snapshots (must fail, not panic), seeding sweeps, contained set_rounds(0), Debug while unwinding / on another thread.",
+ "C16": " Histories also contain timer_stats / test_timer / contained set_rounds(0), 2^16-collection long hauls, and the wall-clock seam.",
+ "C17": " Texts under every formatter flag, also while unwinding / on another thread, after non-output operations; extra passes: build with --cfg fuzzing, and every ALL_CAPS token of the compiled crates set as environment variable.",
+ "C18": " Configurations include -C target-cpu=native and (thorough) opt-level 1 / s with overflow checks and debug assertions split; seeding sweeps in the corpus.",
+ "C19": " Also clones of JitterRng inside schedules, near-equal and quantised private clocks, and same-thread nesting through the timer callback.",
+}
+
 
 def main():
     checks = []
     for pid in IMPLEMENTED:
-        c = CHECKS[pid]
+        c = dict(CHECKS[pid])
+        c["text"] = c["text"] + SUFFIX.get(pid, "")
         checks.append({
             "property_id": pid,
             "quick_cmd": "./check %s quick" % pid,
@@ -79,7 +95,7 @@ def main():
         "setup_cmd": "./check setup",
         "hooks": {
             "guard": "rngs_verif",
-            "enable": "no source hook is needed: every seam already exists (timer closure, source RNG trait parameter, serde feature, public constructors); checks build /repo's crates as path dependencies of /verif/sim with features serde (and std for C19)",
+            "enable": "no source hook is needed: every seam already exists (timer closure, source RNG trait parameter, serde feature, public constructors); checks build /repo's crates as path dependencies of /verif/sim with features serde, std and log; the wall-clock shim (/verif/shim/clockshim.c, LD_PRELOAD for simulator processes only) interposes clock_gettime and touches nothing in /repo",
             "baseline_off_cmd": "cd /repo && cargo test --workspace --no-fail-fast --offline",
             "source_commits": [],
             "add_only": True,
